@@ -31,6 +31,9 @@ pub enum Status {
     BlockedEpoll(i32),
     /// waiting for a harness condition (an atomic flag set by another thread's step)
     BlockedFlag(Arc<std::sync::atomic::AtomicBool>),
+    /// really parked inside a std primitive (a blocking `SyncSender::send`): observed through
+    /// procfs by the watchdog; becomes Runnable when it reaches its next point
+    BlockedStd,
     Finished,
 }
 
@@ -50,6 +53,11 @@ pub struct State {
     pub batch_exec: usize,
     /// driver monitor invoked (under the lock) when a thread is granted a labelled step
     pub on_step: Option<Box<dyn FnMut(usize, &'static str) + Send>>,
+    /// kernel thread ids of the controlled threads (for the parked-thread probe)
+    pub os_tid: Vec<i32>,
+    /// the thread was granted a step that may park inside std
+    pub may_block: Vec<bool>,
+    pub watchdog: bool,
 }
 
 pub struct Sched {
@@ -81,6 +89,9 @@ pub fn sched() -> &'static Arc<Sched> {
                 batch_channel: 0,
                 batch_exec: 0,
                 on_step: None,
+                os_tid: vec![],
+                may_block: vec![],
+                watchdog: false,
             }),
             cv: Condvar::new(),
         })
@@ -102,6 +113,9 @@ pub fn begin(tape: Tape, n: usize) {
     s.over = false;
     s.threads = vec![Status::Starting; n];
     s.threads[0] = Status::Running;
+    s.os_tid = vec![0; n];
+    s.os_tid[0] = unsafe { libc::gettid() };
+    s.may_block = vec![false; n];
     s.current = 0;
     s.tape = tape;
     s.steps = 0;
@@ -149,7 +163,7 @@ fn enabled(s: &State, i: usize) -> bool {
         Status::Runnable | Status::Running => true,
         Status::BlockedEpoll(fd) => fd_readable(fd),
         Status::BlockedFlag(ref f) => f.load(std::sync::atomic::Ordering::SeqCst),
-        Status::Starting | Status::Finished => false,
+        Status::Starting | Status::Finished | Status::BlockedStd => false,
     }
 }
 
@@ -176,14 +190,99 @@ fn pick(s: &mut State, me: usize) -> Option<usize> {
 fn finish_execution(s: &mut State) {
     s.over = true;
     s.blocked_at_end = (0..s.threads.len())
-        .filter(|&i| matches!(s.threads[i], Status::BlockedEpoll(_) | Status::BlockedFlag(_)))
+        .filter(|&i| matches!(s.threads[i], Status::BlockedEpoll(_) | Status::BlockedFlag(_) | Status::BlockedStd))
         .collect();
     sched().cv.notify_all();
 }
 
+fn parked_in_futex(os_tid: i32) -> bool {
+    let st = std::fs::read_to_string(format!("/proc/self/task/{os_tid}/stat")).unwrap_or_default();
+    // state is the field after the ")" that closes the command name
+    let state = st.rsplit(')').next().and_then(|r| r.split_whitespace().next()).unwrap_or("");
+    if state != "S" {
+        return false;
+    }
+    let sc = std::fs::read_to_string(format!("/proc/self/task/{os_tid}/syscall")).unwrap_or_default();
+    sc.starts_with("202 ") || sc.starts_with("98 ")
+}
+
+/// Before any scheduling decision every thread that was parked inside std must be settled: either
+/// still parked (stable over two probes with the scheduler lock released in between, so that a
+/// thread merely queueing for the scheduler lock gets through) or arrived at its next point.
+fn settle(mut s: MutexGuard<'static, State>) -> MutexGuard<'static, State> {
+    if !s.watchdog {
+        return s;
+    }
+    loop {
+        let pending: Vec<usize> = (0..s.threads.len()).filter(|&i| matches!(s.threads[i], Status::BlockedStd)).collect();
+        if pending.is_empty() || s.over {
+            return s;
+        }
+        let tids: Vec<i32> = pending.iter().map(|&i| s.os_tid[i]).collect();
+        let first: Vec<bool> = tids.iter().map(|&t| parked_in_futex(t)).collect();
+        drop(s);
+        std::thread::sleep(Duration::from_micros(40));
+        let second: Vec<bool> = tids.iter().map(|&t| parked_in_futex(t)).collect();
+        s = lock();
+        let all_settled = pending.iter().enumerate().all(|(k, &i)| !matches!(s.threads[i], Status::BlockedStd) || (first[k] && second[k]));
+        if all_settled {
+            return s;
+        }
+    }
+}
+
+/// Start the watchdog that notices when the running thread parks inside a std primitive.
+pub fn start_watchdog() {
+    {
+        let mut s = lock();
+        if s.watchdog {
+            return;
+        }
+        s.watchdog = true;
+    }
+    std::thread::spawn(|| loop {
+        std::thread::sleep(Duration::from_micros(60));
+        let (cur, tid) = {
+            let s = lock();
+            if !s.active || s.over || s.threads.is_empty() {
+                continue;
+            }
+            let cur = s.current;
+            if !matches!(s.threads[cur], Status::Running) || !s.may_block[cur] {
+                continue;
+            }
+            (cur, s.os_tid[cur])
+        };
+        if !parked_in_futex(tid) {
+            continue;
+        }
+        std::thread::sleep(Duration::from_micros(60));
+        if !parked_in_futex(tid) {
+            continue;
+        }
+        let mut s = lock();
+        if !s.active || s.over || s.current != cur || !matches!(s.threads[cur], Status::Running) || !s.may_block[cur] {
+            continue;
+        }
+        // the running thread is parked inside std: it gives up the baton
+        s.threads[cur] = Status::BlockedStd;
+        s.trace.push((cur as u8, "parked"));
+        s.steps += 1;
+        match pick(&mut s, cur) {
+            None => finish_execution(&mut s),
+            Some(next) => {
+                s.switches += 1;
+                s.current = next;
+                sched().cv.notify_all();
+            }
+        }
+    });
+}
+
 /// Hand the baton according to the tape and wait until it comes back to `me`.
 /// Must be called with `s.threads[me]` already set to its waiting status.
-fn yield_from(mut s: MutexGuard<'static, State>, me: usize, label: &'static str) {
+fn yield_from(s: MutexGuard<'static, State>, me: usize, label: &'static str) {
+    let mut s = settle(s);
     s.steps += 1;
     if s.steps > s.max_steps {
         s.step_cap_hit = true;
@@ -210,6 +309,7 @@ fn yield_from(mut s: MutexGuard<'static, State>, me: usize, label: &'static str)
         }
     }
     s.threads[me] = Status::Running;
+    s.may_block[me] = label == "chan.blocking_send";
     s.trace.push((me as u8, label));
     if let Some(mut f) = s.on_step.take() {
         f(me, label);
@@ -222,6 +322,27 @@ pub fn point(label: &'static str) {
     let Some(me) = my_tid() else { return };
     let mut s = lock();
     if !s.active || s.over {
+        return;
+    }
+    if matches!(s.threads[me], Status::BlockedStd) {
+        // we were parked inside std and have been released by another thread's step: we do not
+        // hold the baton, so just become runnable and wait for it
+        s.threads[me] = Status::Runnable;
+        s.may_block[me] = false;
+        sched().cv.notify_all();
+        while s.current != me && !s.over {
+            s = sched().cv.wait(s).unwrap_or_else(|e| e.into_inner());
+        }
+        if s.over {
+            return;
+        }
+        s.threads[me] = Status::Running;
+        s.may_block[me] = label == "chan.blocking_send";
+        s.trace.push((me as u8, label));
+        if let Some(mut f) = s.on_step.take() {
+            f(me, label);
+            s.on_step = Some(f);
+        }
         return;
     }
     s.threads[me] = Status::Runnable;
@@ -266,6 +387,7 @@ pub fn spawn<F: FnOnce() + Send + 'static>(tid: usize, f: F) -> std::thread::Joi
         TID.with(|t| t.set(Some(tid)));
         {
             let mut s = lock();
+            s.os_tid[tid] = unsafe { libc::gettid() };
             s.threads[tid] = Status::Runnable;
             sched().cv.notify_all();
             while s.current != tid && !s.over {
@@ -289,11 +411,17 @@ pub fn spawn<F: FnOnce() + Send + 'static>(tid: usize, f: F) -> std::thread::Joi
 
 fn finish_thread(me: usize) {
     let mut s = lock();
+    let had_baton = s.current == me && !matches!(s.threads[me], Status::BlockedStd);
     s.threads[me] = Status::Finished;
     if !s.active || s.over {
         sched().cv.notify_all();
         return;
     }
+    if !had_baton {
+        sched().cv.notify_all();
+        return;
+    }
+    let mut s = settle(s);
     s.steps += 1;
     match pick(&mut s, me) {
         None => finish_execution(&mut s),
@@ -313,6 +441,7 @@ pub fn main_done() {
         return;
     }
     s.threads[0] = Status::Finished;
+    let mut s = settle(s);
     s.steps += 1;
     match pick(&mut s, 0) {
         None => finish_execution(&mut s),
